@@ -23,8 +23,10 @@ def queries(tier):
         qs.append(dict(name='float_i%d_f%d_e%d' % (i, f, e), unit='ser', harness='h_float.c', defs={'IDIG': i, 'FDIG': f, 'EXPO': e}, unwind=i + f + 12, unwindset=SCALAR_REC,
                        timeout=600, mem_gb=4, desc='serialize(double) text rule with %%g as a contract stub: %d integer digits, %d fraction digits, exponent part %s; all 64 option sets' % (i, f, 'present' if e else 'absent'),
                        bounds='%%g text shape: %d int digits, %d fraction digits, exponent %d (2-3 exponent digits)' % (i, f, e)))
-    qs.append(dict(name='scalar_trivial', unit='ser', harness='h_scalar.c', defs={'KIND': 0}, unwind=10, unwindset=SCALAR_REC, timeout=600, mem_gb=4,
-                   desc='serialize(null/false/true) x 64 option sets: exact text', bounds='all 3 values x 64 option sets'))
+    qs.append(dict(name='scalar_null', unit='ser', harness='h_scalar.c', defs={'KIND': 0}, unwind=10, unwindset=SCALAR_REC, timeout=600, mem_gb=4,
+                   desc='serialize(null) x 64 option sets: exact text', bounds='64 option sets'))
+    qs.append(dict(name='scalar_bool', unit='ser', harness='h_scalar.c', defs={'KIND': 1}, unwind=10, unwindset=SCALAR_REC, timeout=600, mem_gb=4,
+                   desc='serialize(false/true) x 64 option sets: exact text', bounds='both values x 64 option sets'))
     qs.append(dict(name='scalar_hexint', unit='ser', harness='h_scalar.c', defs={'KIND': 2}, unwind=22, unwindset=SCALAR_REC, timeout=900, mem_gb=6,
                    desc='serialize(int64) with HEX_INTEGERS: exact text for every int64 (incl. INT64_MIN/MAX) x 32 option sets', bounds='all 2^64 values'))
     for nd in ([1, 2, 19] if tier == 'quick' else [1, 2, 3, 5, 10, 15, 16, 18, 19]):
@@ -35,4 +37,31 @@ def queries(tier):
         qs.append(dict(name='scalar_string_len%d' % L, unit='ser', harness='h_scalar.c', defs={'KIND': 4, 'LEN': L}, unwind=6 * L + 20, unwindset=SCALAR_REC, timeout=900, mem_gb=6,
                        desc='serialize(string of %d symbolic bytes) x 64 option sets: quotes + body that un-escapes to the input, alphabet of the selected mode' % L,
                        bounds='string length == %d, all byte values' % L))
+    CMPREC = '_ZNK5phosg4JSONssERKS0_:1,%s:1' % RESET
+    pairs = [(a, b) for a in range(5) for b in range(5)] if tier == 'thorough' else [(0, 0), (1, 1), (2, 2), (3, 3), (2, 3), (3, 2), (4, 4), (1, 2), (0, 4)]
+    for (a, b) in pairs:
+        for (la, lb) in ([(0, 0)] if not (a == 4 or b == 4) else ([(1, 1), (1, 2)] if tier == 'quick' else [(0, 0), (0, 1), (1, 1), (1, 2), (2, 1), (2, 2)])):
+            if (a != 4 and la) or (b != 4 and lb):
+                continue
+            qs.append(dict(name='cmp_k%d_k%d_l%d_l%d' % (a, b, la, lb), unit='ser', harness='h_cmp.c', defs={'KA': a, 'KB': b, 'LA': la, 'LB': lb}, unwind=10,
+                           unwindset=CMPREC, timeout=600, mem_gb=4,
+                           desc='operator<=> / == / != on scalars of kinds %d and %d (string lengths %d, %d), all values symbolic, vs reference ordering' % (a, b, la, lb),
+                           bounds='kinds (%d,%d), string lengths (%d,%d)' % (a, b, la, lb)))
+    TREEREC = lambda depth: '%s:%d,%s:%d,_ZNK5phosg4JSONssERKS0_:%d,_ZN5phosg4JSONaSERKS0_:%d' % (SERIALIZE, depth, RESET, depth, depth, depth)
+    DEPTH = {0: 1, 1: 1, 2: 2, 3: 2, 4: 2, 5: 2, 6: 3, 7: 3, 8: 3, 9: 2, 10: 3}
+    if tier == 'quick':
+        cells = [(0, 0, 0, 0), (0, 1, 0, 0), (0, 3, 1, 2), (0, 5, 4, 0), (1, 6, 2, 0), (2, 4, 1, 4), (4, 3, 2, 2)]
+    else:
+        cells = []
+        for what in (0, 1, 2, 3, 4):
+            for shape in range(11):
+                if what >= 2 and shape in (0, 1, 9):
+                    continue
+                for (ka, kb) in ([(0, 0)] if shape in (0, 1, 9) else [(0, 1), (1, 2), (2, 4), (4, 0), (2, 2), (4, 4)]):
+                    cells.append((what, shape, ka, kb))
+    for (what, shape, ka, kb) in cells:
+        qs.append(dict(name='tree_w%d_s%d_k%d%d' % (what, shape, ka, kb), unit='ser', harness='h_tree.c', defs={'WHAT': what, 'SHAPE': shape, 'KA': ka, 'KB': kb}, unwind=24,
+                       unwindset=TREEREC(DEPTH[shape]), timeout=900, mem_gb=6, object_bits=11,
+                       desc='value tree shape %d, leaf kinds (%d,%d), operation %d (0 serialize, 1 serialize copy, 2 original after modifying copy, 3 modified copy, 4 equality): compact-text oracle, 64 option sets' % (shape, ka, kb, what),
+                       bounds='shape %d, leaf kinds %d/%d, 1-byte plain keys and string leaves' % (shape, ka, kb)))
     return qs
